@@ -28,7 +28,7 @@ CustNames == {"X", "Y"}                \* custom header names
 NLen(n) == CASE n = "A" -> 6 [] n = "B" -> 4 [] n = "CT" -> 12 [] n = "CL" -> 14 [] n = "DT" -> 4 [] n = "CC" -> 13 [] n = "TE" -> 17
              [] n = "X" -> 3 [] n = "Y" -> 8 [] n = "SC" -> 10 [] OTHER -> 5
 \* value tokens and their byte lengths; "n<k>" is the decimal text of a body length
-TokLen(t) == CASE t = "p" -> 1 [] t = "qq" -> 2 [] t = "L" -> 300 [] t = "date" -> 29
+TokLen(t) == CASE t = "p" -> 1 [] t = "qq" -> 2 [] t = "L" -> 300 [] t = "date" -> 29 [] t = "u" -> 7 [] t = "t" -> 11 [] t = "x" -> 16
                [] t = "text" -> 25 [] t = "html" -> 24 [] t = "json" -> 16 [] t = "raw" -> 24 [] t = "sse" -> 17 [] t = "nocache" -> 25 [] t = "chunked" -> 7
                [] t = "n0" -> 1 [] t = "n3" -> 1 [] t = "n12" -> 2 [] t = "n300" -> 3 [] t = "n8" -> 1 [] t = "n248" -> 3 [] t = "n4088" -> 4 [] t = "n1" -> 1 [] t = "n1000" -> 4 [] t = "n5000" -> 4
                [] t = "c1" -> 5 [] t = "c2" -> 7 [] OTHER -> 1
@@ -41,7 +41,11 @@ LenOf(t) == CASE t = "n0" -> 0 [] t = "n1" -> 1 [] t = "n3" -> 3 [] t = "n12" ->
               [] t = "n1000" -> 1000 [] t = "n5000" -> 5000
               \* a one-event stream of these lengths makes a chunk of exactly 16, 256 and 4096 bytes (its hexadecimal size gains a digit)
               [] t = "n8" -> 8 [] t = "n248" -> 248 [] t = "n4088" -> 4088 [] OTHER -> 0
-StatusOf(t) == CASE t = "s200" -> 200 [] t = "s204" -> 204 [] t = "s404" -> 404 [] t = "s304" -> 304 [] t = "s500" -> 500 [] t = "s201" -> 201
+\* "c<code>": any status code of the framework's enum (1xx and 304 are not generated)
+StatusCodes == {200, 201, 202, 203, 204, 205, 206, 207, 208, 226, 300, 301, 302, 303, 307, 308} \cup (400..418 \ {402}) \cup {421, 422, 423, 424, 426, 428, 429, 431, 451}
+               \cup (500..508) \cup {510, 511}
+StatusOf(t) == IF \E c \in StatusCodes : t = "c" \o ToString(c) THEN CHOOSE c \in StatusCodes : t = "c" \o ToString(c) ELSE
+               CASE t = "s200" -> 200 [] t = "s204" -> 204 [] t = "s404" -> 404 [] t = "s304" -> 304 [] t = "s500" -> 500 [] t = "s201" -> 201
                    [] t = "s205" -> 205 [] t = "s206" -> 206 [] t = "s301" -> 301 [] t = "s400" -> 400 [] OTHER -> 200
 
 BodyKinds == {"text", "html", "json", "raw", "stream"}     \* stream: one server-sent event of `len` bytes, chunked
@@ -88,9 +92,15 @@ CookieLines(lines) == LET idx == {i \in DOMAIN lines : lines[i].n = "SC"}
                       IN F[Len(lines)]
 
 \* every live header exactly once with its latest value, removed ones absent, nothing twice but Set-Cookie
+\* (a value with a line break in it, token "x", cannot be sent as it is: whatever the framework makes of it -- SP in its place as RFC 9110
+\*  5.5 suggests, an escape, no header at all -- the header line occurs at most once and nothing of the value becomes a line of its own:
+\*  the name the value tries to inject, token INJ, is a header nobody set)
+HasBreak(v) == \E i \in DOMAIN v : v[i] = "x"
 HeadersOK(s, lines) ==
   /\ \A n \in DOMAIN s.hdr : IF s.hdr[n] = <<>> THEN Count(lines, n) = 0
+                             ELSE IF HasBreak(s.hdr[n]) THEN Count(lines, n) =< 1
                              ELSE Count(lines, n) = 1 /\ ValueOf(lines, n) = s.hdr[n]
+  /\ Count(lines, "INJ") = 0
   /\ \A i \in DOMAIN lines : lines[i].n # "SC" => Count(lines, lines[i].n) = 1
   /\ CookieLines(lines) = s.cookies
 
@@ -118,9 +128,10 @@ WireClass(s, method, w) ==
   IF ~w.wf THEN "malformed"
   ELSE IF w.trailing # 0 THEN "bytes-after-declared-end"
   ELSE IF w.status # s.status THEN "status"
+  ELSE IF Count(w.lines, "INJ") > 0 THEN "line-break-in-a-value-becomes-a-header-line"
   ELSE IF \E i \in DOMAIN w.lines : w.lines[i].n # "SC" /\ Count(w.lines, w.lines[i].n) > 1 THEN "duplicate-header-line"
   ELSE IF \E n \in DOMAIN s.hdr : s.hdr[n] = <<>> /\ Count(w.lines, n) > 0 THEN "removed-header-on-wire"
-  ELSE IF \E n \in DOMAIN s.hdr : s.hdr[n] # <<>> /\ Count(w.lines, n) = 0 THEN "live-header-missing"
+  ELSE IF \E n \in DOMAIN s.hdr : s.hdr[n] # <<>> /\ ~HasBreak(s.hdr[n]) /\ Count(w.lines, n) = 0 THEN "live-header-missing"
   ELSE IF ~HeadersOK(s, w.lines) THEN "header-value"
   ELSE IF s.status = 204 THEN "204-framing"
   ELSE IF method = "HEAD" \/ ~MayCarryBody(s.status) THEN "body-on-bodyless"
